@@ -720,6 +720,7 @@ func runCloudEvents(rc *RunCtx) {
 	signerMode := tp.Choose(4, "signer") // 0 absent, else present
 	signN := 0
 	failAt := map[int]bool{}
+	panicAt := map[int]bool{} // subset of failAt: the signer does not return, it panics
 	var signedInputs [][]byte
 	key := "k1"
 	// selfRotate: a limited-use key: the signer installs its successor (FormatterFilter.Rotate)
@@ -732,6 +733,9 @@ func runCloudEvents(rc *RunCtx) {
 			signN++
 			signedInputs = append(signedInputs, append([]byte(nil), b...))
 			if failAt[signN] {
+				if panicAt[signN] {
+					panic(fmt.Sprintf("injected signer panic #%d", signN)) // e.g. a nil dereference in a KMS client
+				}
 				return "", fmt.Errorf("injected signer failure #%d", signN)
 			}
 			res := fmt.Sprintf("hmac(%s,%x)%s", k, fnv(string(b)), sigTails[signN%len(sigTails)])
@@ -754,7 +758,11 @@ func runCloudEvents(rc *RunCtx) {
 		ff.Signer = mkSigner(key)
 		if tp.Choose(3, "failing") == 0 {
 			for i := 0; i < 3; i++ {
-				failAt[1+tp.Choose(6, "failat")] = true
+				at := 1 + tp.Choose(6, "failat")
+				failAt[at] = true
+				if tp.Choose(3, "by-panic") == 0 {
+					panicAt[at] = true
+				}
 			}
 		}
 	}
@@ -846,7 +854,21 @@ func runCloudEvents(rc *RunCtx) {
 			}
 			signBefore := signN
 			keyInForce := key // the signer installed when this event is formatted
-			out, err := ff.Process(context.Background(), e)
+			var out *el.Event
+			var err error
+			func() {
+				defer func() {
+					if r := recover(); r != nil {
+						if !strings.HasPrefix(fmt.Sprint(r), "injected signer panic") {
+							panic(r)
+						}
+						// the signer's panic reached the caller: nothing was forwarded, which is fine
+						out, err = nil, fmt.Errorf("Process panicked: %v", r)
+						simrt.Probe("ce.signer-panicked")
+					}
+				}()
+				out, err = ff.Process(context.Background(), e)
+			}()
 			val, stored := e.Format(storeKey)
 			if stored && stale != nil && bytes.Equal(val, stale) {
 				stored = false // what was there before: this call stored nothing
